@@ -10,5 +10,5 @@ CONSTANTS
   EmitMode = "none"
   HistViews = TRUE
   OrderedBegin = FALSE
-INVARIANTS TypeOK RingConsistent InOrder NoDirty PrefixRule CompleteKF AtomicKF CleanupSafe SeekConsistentKF SeekKFExact EmitWalk
+INVARIANTS TypeOK RingConsistent InOrder NoDirty PrefixRule CompleteKF AtomicKF CleanupSafe SeekConsistent SeekNoDirty EmitWalk
 CHECK_DEADLOCK FALSE
